@@ -299,6 +299,10 @@ class Model():
             raise LookupError(f'Asset "{asset.name}"({asset.id}) is not '
                 'part of the association provided.')
 
+        # The asset is no longer part of the association
+        asset.associations = [assoc for assoc in asset.associations
+                              if assoc is not association]
+
     def _validate_association(self, association: SchemaGeneratedClass) -> None:
         """Raise error if association is invalid or already part of the Model.
 
